@@ -120,8 +120,10 @@ CHECKS = {
              "monitor (C08_discipline_partial); when shutdown returns every instance ever opened is closed, exactly once "
              "(C08_closed_by_shutdown); Running is reported only while a worker of a configured stream is alive and the state is Armed with all "
              "workers gone and no device running once stop or abort has returned (C08_running_report_means_alive, "
-             "C08_armed_after_stop_or_abort). PARTIAL: the theorems cover grammar G1 (configure and start issued while no worker of the stream "
-             "is alive; start with no valid stream included); the full statement (any order, incl. configure and start while running) is false "
+             "C08_armed_after_stop_or_abort). PARTIAL: the theorems cover grammar G1 (configure and start issued while no worker "
+             "thread is alive; start with no valid stream, and start while running - which is refused before any device is touched, "
+             "C08_start_while_running_touches_no_device, and then aborts the running acquisition - included); the full statement (any order, "
+             "incl. configure while running) is false "
              "of the unchanged code: two known findings recorded with replays (configure while running re-arms a running storage / closes "
              "devices in use). Tied to the code by the trace-acceptance check of C04 plus generated arbitrary API programs (start while running, "
              "stop/abort when idle, re-configuration - also while running, also with the other device pair -, streams switched off and on, "
@@ -301,7 +303,10 @@ CHECKS = {
              "index of the frame, so a gap reveals dropped frames (C18_counts_all), the count restarts with each start (C18_restart), in a run "
              "gated from its start deliveries <= external triggers and none before the first (C18_gated), and after stop is invoked a pending "
              "get_frame is released through the shutdown exit and stop returns within a bounded number of steps of the designated threads "
-             "(C18_stop_unblocks, C18_stop_releases_caller, bounded-progress rule of Sched.v). Tied to the code on every run by executing the "
+             "(C18_stop_unblocks, C18_stop_releases_caller, bounded-progress rule of Sched.v) - also for the stop the HAL performs inside a "
+             "camera_set that the device rejects while Running (C18_rejected_set, C18_stop_enter_step, C18_stop_kind_stable; afterwards the "
+             "camera is AwaitingConfiguration and a start is refused until an accepted set re-arms it: C18_restart_refused, "
+             "C18_await_until_accepted_set). Tied to the code on every run by executing the "
              "real simulated.camera.c behind the real HAL camera.c under the deterministic scheduler on generated scripts x random and "
              "exhaustive-prefix schedules in lock-step with the extracted model; an independent oracle over the implementation's trace "
              "(ids increasing, deliveries vs triggers, deadlock) finds concrete failing schedules.",
